@@ -7,6 +7,7 @@ import traceback
 from . import runner
 
 PROPS = {
+    "C01": ("c01", "other"),
     "C02": ("c02", "other"),
     "C03": ("c03", "other"),
     "C04": ("c04", "other"),
